@@ -531,6 +531,9 @@ func runC01(r *core.Run) {
 		r.Obs("carrier_type_cases", n)
 	}
 	if r.Variant == "" {
+		// the whole workload once more in the GOARCH=386 build of this monitor (see ./check)
+		r.RunVariantChild("arch386@16", 30*time.Minute, false)
+		r.Obs("arch386_child", "run")
 		for _, v := range []string{"encfirst@3", "encfirst+rev@1", "warm@2", "decfirst+encfirst@2", "decfirst+encfirst+rev@6", "atinit@1", "atinit@16", "imgfirst@4", "imgfirst+rev@16"} {
 			r.RunVariantChild(v, 10*time.Minute, false)
 		}
